@@ -52,6 +52,15 @@ CLAIMED.update({
             MODEL_NOTE + " Immutability probed with top-level mutations only.", "DESIGN.md 4/C12"),
 })
 
+CLAIMED.update({
+    "C14": ("property-based round-trip / cross-format differential / wire-shape / idempotence testing of the three serializers over generated messages of all 24 types, plus structured-mutation byte fuzzing of Deserialize",
+            "Exploration in-process (no router): generated well-typed messages must survive every format and agree across formats; byte inputs must never panic and yield error xor a re-serialisable message, with an error required whenever the mutation makes the input invalid by the statement. Sampling.",
+            "Canonical comparison (numbers by value, nil == empty for trailing payload); int-for-string and float-for-id are grey zones; ugorji codec trusted as a black box.", "DESIGN.md 4/C14"),
+    "C15": ("property-based testing of the transports: generated rawsocket handshakes and frame scripts (boundary sizes, drops, reserved types, PING concurrent with traffic) against the real peer with a harness-written client codec, the same script through the websocket peer, and a differential replay of router scenarios over all 7 transports",
+            "Exploration: delivered == sent minus whole drops, in order and intact; bad frames end only that connection; PONG payloads match and the stream stays parseable under concurrency; canonical per-session observations equal across transports. Sampling.",
+            "gorilla/websocket framing trusted (in-memory WebsocketConnection); transparency compared up to numeric representation, id renaming and order within one step.", "DESIGN.md 4/C15"),
+})
+
 NOT_YET = {}
 
 def main():
